@@ -32,6 +32,8 @@ pub struct Lsp {
     pub service: LspService<Backend>,
     _socket: ClientSocket,
     pub root: PathBuf,
+    /// see `WsSpec::disk_rel`: where the virtualenv's library directory really is (None = as the specs name it)
+    pub venv_layout: Option<String>,
 }
 
 pub fn uri_of(p: &Path) -> Uri {
@@ -44,9 +46,16 @@ fn uri_to_rel(root: &Path, uri: &str) -> String {
 }
 
 impl Lsp {
+    pub fn abs(&self, file: &str) -> PathBuf {
+        if let (Some(layout), Some(rest)) = (&self.venv_layout, file.strip_prefix(super::ws::SITE)) {
+            return self.root.join(format!(".venv/{}/site-packages{}", layout, rest));
+        }
+        self.root.join(file)
+    }
+
     pub fn new(db: Arc<FixtureDatabase>, root: &Path) -> Lsp {
         let (service, socket) = LspService::new(|client| Backend::new(client, db.clone()));
-        let lsp = Lsp { service, _socket: socket, root: root.to_path_buf() };
+        let lsp = Lsp { service, _socket: socket, root: root.to_path_buf(), venv_layout: None };
         {
             let b = lsp.backend();
             poll_now(async {
@@ -60,7 +69,7 @@ impl Lsp {
         self.service.inner()
     }
     fn tdp(&self, file: &str, line0: u32, col: u32) -> Value {
-        json!({"textDocument": {"uri": uri_of(&self.root.join(file)).to_string()}, "position": {"line": line0, "character": col}})
+        json!({"textDocument": {"uri": uri_of(&self.abs(file)).to_string()}, "position": {"line": line0, "character": col}})
     }
 
     /// (rel file, 1-based line) of go-to-definition
@@ -149,7 +158,7 @@ impl Lsp {
     }
     /// (line, character, label) per inlay hint in the whole file
     pub fn inlay(&self, file: &str) -> Option<Vec<(usize, usize, String)>> {
-        let p = serde_json::from_value(json!({"textDocument": {"uri": uri_of(&self.root.join(file)).to_string()}, "range": {"start": {"line": 0, "character": 0}, "end": {"line": 100000, "character": 0}}})).unwrap();
+        let p = serde_json::from_value(json!({"textDocument": {"uri": uri_of(&self.abs(file)).to_string()}, "range": {"start": {"line": 0, "character": 0}, "end": {"line": 100000, "character": 0}}})).unwrap();
         let r = poll_now(self.backend().handle_inlay_hint(p)).ok().flatten()?;
         let mut out = vec![];
         for h in r {
@@ -181,12 +190,12 @@ impl Lsp {
             .map(|(l, c, l2, c2)| json!({"range": {"start": {"line": l, "character": c}, "end": {"line": l2, "character": c2}}, "code": "undeclared-fixture", "source": "pytest-lsp", "message": "m"}))
             .collect();
         let range = diags.first().map(|(l, c, l2, c2)| json!({"start": {"line": l, "character": c}, "end": {"line": l2, "character": c2}})).unwrap_or(json!({"start": {"line": 0, "character": 0}, "end": {"line": 0, "character": 0}}));
-        let p = serde_json::from_value(json!({"textDocument": {"uri": uri_of(&self.root.join(file)).to_string()}, "range": range, "context": {"diagnostics": ds}})).unwrap();
+        let p = serde_json::from_value(json!({"textDocument": {"uri": uri_of(&self.abs(file)).to_string()}, "range": range, "context": {"diagnostics": ds}})).unwrap();
         poll_now(self.backend().handle_code_action(p)).ok().flatten().map(|v| v.len()).unwrap_or(0)
     }
     /// (line, title) per code lens
     pub fn code_lens(&self, file: &str) -> Vec<(usize, String)> {
-        let p = serde_json::from_value(json!({"textDocument": {"uri": uri_of(&self.root.join(file)).to_string()}})).unwrap();
+        let p = serde_json::from_value(json!({"textDocument": {"uri": uri_of(&self.abs(file)).to_string()}})).unwrap();
         let r = poll_now(self.backend().handle_code_lens(p)).ok().flatten().unwrap_or_default();
         let mut out = vec![];
         for l in r {
@@ -197,7 +206,7 @@ impl Lsp {
         out
     }
     pub fn document_symbols(&self, file: &str) -> Vec<String> {
-        let p = serde_json::from_value(json!({"textDocument": {"uri": uri_of(&self.root.join(file)).to_string()}})).unwrap();
+        let p = serde_json::from_value(json!({"textDocument": {"uri": uri_of(&self.abs(file)).to_string()}})).unwrap();
         let r = poll_now(self.backend().handle_document_symbol(p)).ok().flatten();
         let Some(r) = r else { return vec![] };
         let v = serde_json::to_value(r).unwrap_or(Value::Null);
